@@ -38,6 +38,11 @@ def pack_kinds():
     msgs.append(message('TwoOneofs', [field('a1', 1, 'string', oneof=0), field('a2', 2, 'int32', oneof=0), field('mid', 3, 'bool'),
                                       field('b1', 4, Q('Leaf'), oneof=1), field('b2', 5, 'bytes', oneof=1),
                                       field('opt', 6, 'string', optional=True)], oneofs=['first', 'second']))
+    # a real oneof whose name looks like a proto3-optional synthetic one, followed by further oneofs
+    msgs.append(message('UnderscoreOneof', [field('display_name', 1, 'string'), field('nickname', 2, 'string', oneof=0),
+                                            field('email', 3, 'string', oneof=1), field('phone', 4, 'string', oneof=1),
+                                            field('age', 5, 'int32', optional=True), field('tail', 6, 'bool', oneof=2)],
+                        oneofs=['_nickname', 'channel', '_tail']))
     n = 0
     for kt in MAP_KEY_TYPES:
         fs, nested = [], []
@@ -74,6 +79,16 @@ def pack_names():
                     nested=[message('Leaf2', [field('inner_only', 1, 'string')])]),
             message('Leaf2', [field('top_only', 1, 'int32')]),
             message('proto', [field('proto', 1, 'string')]),
+            # homonyms: a type nested in another message under the same simple names as the referrer's own nested type
+            message('Instance', [field('config', 1, Q('Instance.Config'))],
+                    nested=[message('Config', [field('disk', 1, Q('Instance.Config.Disk'))],
+                                    nested=[message('Disk', [field('size_gb', 1, 'int64'), field('type', 2, 'string')])],
+                                    enums=[enum('Tier', 'TIER_UNSPECIFIED', 'HOT')])]),
+            message('Config', [field('boot', 1, Q('Config.Disk')), field('template_disk', 2, Q('Instance.Config.Disk')),
+                               field('extra_disks', 3, Q('Instance.Config.Disk'), repeated=True),
+                               field('tier', 4, 'enum:' + Q('Instance.Config.Tier')), field('own_tier', 5, 'enum:' + Q('Config.Tier'))],
+                    nested=[message('Disk', [field('name', 1, 'string')])], enums=[enum('Tier', 'TIER_UNSPECIFIED', 'COLD', 'WARM')]),
+            message('Disk', [field('top', 1, 'bool'), field('nested_elsewhere', 2, Q('Config.Disk'))]),
             message('Message', [field('message', 1, Q('Message')), field('field', 2, 'string')]),
             message('Field', [field('f', 1, 'string')]),
             ]
@@ -203,6 +218,26 @@ def pack_refs(max_depth):
     return [other, main], [dep], mods, cells
 
 
+def pack_same_basename():
+    """Target files named like files of other packages they take types from."""
+    op = 'acme.other.v1'
+    dep = file('acme/other/v1/common.proto', op, messages=[message('Money', [field('units', 1, 'int64')])],
+               enums=[enum('Region', 'REGION_UNSPECIFIED', 'EU')])
+    f1 = file('acme/wire/v1/date.proto', P, messages=[message('Booking', [field('day', 1, '.google.type.Date'),
+                                                                         field('days', 2, '.google.type.Date', repeated=True)])])
+    f2 = file('acme/wire/v1/common.proto', P, messages=[message('Invoice', [field('total', 1, f'.{op}.Money'),
+                                                                           field('region', 2, 'enum:' + f'.{op}.Region')])])
+    f3 = file('acme/wire/v1/status.proto', P, messages=[message('Outcome', [field('status', 1, '.google.rpc.Status'),
+                                                                           field('booking', 2, Q('Booking')), field('invoice', 3, Q('Invoice'))])])
+    mods = ['google.type.date_pb2', 'google.rpc.status_pb2']
+    std = desc.std_dep_names(mods)
+    dep.dependency.extend(std)
+    f1.dependency.extend(std)
+    f2.dependency.extend(std + [dep.name])
+    f3.dependency.extend(std + [f1.name, f2.name])
+    return [f1, f2, f3], [dep], mods
+
+
 def negative_enum_pack():
     f = file('acme/wire/v1/neg.proto', P, enums=[enum('Signed', ('SIGNED_UNSPECIFIED', 0), ('MINUS', -1), ('PLUS', 1))],
              messages=[message('UsesSigned', [field('s', 1, 'enum:' + Q('Signed'))])])
@@ -229,6 +264,7 @@ def make_jobs(ctx, only=None):
     add('kinds', *pack_kinds())
     add('names', *pack_names())
     add('recursion', *pack_recursion())
+    add('same-basename', *pack_same_basename())
     add('negative-enum', *negative_enum_pack())
     add('keyword-enum-values', *keyword_enum_values_pack())
     files, deps, mods, cells = pack_refs(4)
